@@ -9,6 +9,8 @@
 -/
 import CC.Gen.Kernels
 import CC.Groestl.Model
+import CC.Lemmas.SrcGlue
+import CC.Lemmas.SrcGlueGroestl
 namespace CC.Src
 open CC.Groestl.Model CC.Groestl.Intrin
 
@@ -80,5 +82,510 @@ theorem src_groestl_maskQ1024 :
       let f := mm_set1_epi64x (glit "rounds_q" 19)
       submix (X8.map2 mm_shuffle_epi8 (x.xor ⟨f, f, f, f, f, f, f, c⟩) maskQ1024) :=
   ⟨by decide +kernel, rfl⟩
+
+/-! ## phase 3: the glue of lib.rs (`impl_digest!`, two instantiations, and the wrapper types `Groestl224`, `Groestl384`)
+  (tools/inventory_kernels_glue.py)
+
+  `new_truncated`, `finalize_dirty`, `Default::default`, `Update::update`, `FixedOutputDirty::finalize_into_dirty`,
+  `Reset::reset`, regenerated from the source on every run.  The `block_buffer::BlockBuffer` methods are named
+  primitives mapped to `CC.Buffer` (`inputBlock`, `len64PaddingBe`); `Compressor512::new` / `input` /
+  `finalize_dirty` (resp. `Compressor1024`) are parameters of the generated definitions, instantiated here with the
+  model's `comp512` (resp. `comp1024`).  Panic messages are not compared (`noMsg`).
+  The generic lemmas (`groestl_*_glue_*`) hold for every `K : Comp C` with the right block size; NO invariant on the
+  block buffer or the counter is needed: every statement holds for every state. -/
+
+open CC CC.Buffer
+
+/-- only used as the junk value of `outGet` on an outcome that is not `ok` (a guard has fired then) -/
+instance groestlInhabitedX4 : Inhabited X4 := ⟨⟨0, 0, 0, 0⟩⟩
+instance groestlInhabitedX8 : Inhabited X8 := ⟨⟨0, 0, 0, 0, 0, 0, 0, 0⟩⟩
+
+/-- the fields of the struct generated by `impl_digest!`, in source order -/
+def groestlEnc {C : Type} (h : Hasher C) : BB × BitVec 64 × C := (h.buffer, h.blockCounter, h.compressor)
+/-- … and back -/
+def groestlDec {C : Type} (t : BB × BitVec 64 × C) : Hasher C := ⟨t.1, t.2.1, t.2.2⟩
+
+theorem groestlDec_enc {C : Type} (h : Hasher C) : groestlDec (groestlEnc h) = h := rfl
+theorem groestlEnc_dec {C : Type} (t : BB × BitVec 64 × C) : groestlEnc (groestlDec t) = t := rfl
+
+/-! ### `new_truncated` -/
+
+/-- `x.to_be()` as translated (`CC.ofLeBytes 64 (CC.toBeBytes x 8)`) is the model's byte swap -/
+theorem groestl_toBe_eq (x : BitVec 64) : CC.ofLeBytes 64 (CC.toBeBytes x 8) = toBe x := by
+  simp only [toBe, read64le, le64, toBe64, toLe64, toBeBytes, toLeBytes, ofLeBytes, List.range, List.range.loop, List.map,
+    List.reverse_cons, List.reverse_nil, List.nil_append, List.cons_append, List.foldr, List.getD_cons_zero,
+    List.getD_cons_succ]
+  bv_decide
+
+/-- `u64::from(bits)` -/
+theorem groestl_u64_from_u32 (bits : BitVec 32) : BitVec.ofNat 64 (bits.toNat % 2 ^ 32) = BitVec.setWidth 64 bits := by
+  rw [Nat.mod_eq_of_lt bits.isLt]
+  apply BitVec.eq_of_toNat_eq
+  simp
+
+theorem groestl_new_truncated_glue_64 {C : Type} [Inhabited C] (K : Comp C) (hb : K.b = 64) (bits : BitVec 32) :
+    groestlEnc (newTruncated K bits.toNat) = Gen.Kernels.groestl_new_truncated_256 K.new bits := by
+  simp only [groestlEnc, newTruncated, Gen.Kernels.groestl_new_truncated_256, hb, groestl_u64_from_u32, groestl_toBe_eq]
+  rfl
+
+theorem groestl_new_truncated_glue_128 {C : Type} [Inhabited C] (K : Comp C) (hb : K.b = 128) (bits : BitVec 32) :
+    groestlEnc (newTruncated K bits.toNat) = Gen.Kernels.groestl_new_truncated_512 K.new bits := by
+  simp only [groestlEnc, newTruncated, Gen.Kernels.groestl_new_truncated_512, hb, groestl_u64_from_u32, groestl_toBe_eq]
+  rfl
+
+/-! ### `update` -/
+
+/-- the relation between the model's accumulator (`Acc`, `dead` flag) and the generated one (`Out (u64 × C)`) -/
+def groestlAccRel {C : Type} (a : Acc C) (o : Out (BitVec 64 × C)) : Prop :=
+  noMsg o = (if a.dead then .panic "" else .ok (a.ctr, a.comp))
+
+/-- one call of the closure `|b| { *block_counter += 1; compressor.input(b) }` keeps the relation -/
+theorem groestlAccRel_step {C : Type} [Inhabited C] (K : Comp C) (p : Profile) (a : Acc C) (o : Out (BitVec 64 × C))
+    (x : List (BitVec 8)) (h : groestlAccRel a o) :
+    groestlAccRel (updStep K p a x) (o >>= fun s => Gen.Kernels.groestl_update_256_closure1 K.input p s x) := by
+  unfold groestlAccRel at h ⊢
+  unfold updStep
+  cases hd : a.dead
+  · rw [hd] at h
+    simp only [Bool.false_eq_true, if_false] at h ⊢
+    cases o with
+    | ok s =>
+      simp only [noMsg, Out.ok.injEq] at h
+      subst h
+      simp only [Out.bind_ok, Gen.Kernels.groestl_update_256_closure1, checkedAdd]
+      have e1 : (1#64).toNat = 1 := rfl
+      simp only [e1]
+      by_cases hov : a.ctr.toNat + 1 < 2 ^ 64
+      · have : ¬ (a.ctr.toNat + 1 ≥ 2 ^ 64) := by omega
+        simp [hov, this, noMsg]
+      · have : a.ctr.toNat + 1 ≥ 2 ^ 64 := by omega
+        cases p <;> simp [hov, this, noMsg]
+    | err => simp [noMsg] at h
+    | panic w => simp [noMsg] at h
+  · rw [hd] at h
+    simp only [if_true] at h ⊢
+    cases o with
+    | ok s => simp [noMsg] at h
+    | err => simp [noMsg] at h
+    | panic w => simp [noMsg, bind_panic, hd]
+
+/-- the two instantiations of the closure have the same translated body -/
+theorem groestl_update_closure_512 {C : Type} [Inhabited C] :
+    @Gen.Kernels.groestl_update_512_closure1 C _ = @Gen.Kernels.groestl_update_256_closure1 C _ := rfl
+
+/-- the shape shared by `groestl_update_256` (b = 64) and `groestl_update_512` (b = 128) -/
+theorem groestl_update_glue {C : Type} [Inhabited C] (K : Comp C) (p : Profile) (h : Hasher C) (data : List (BitVec 8)) :
+    let t1 := inputBlock K.b h.buffer data
+      (fun a blk => a >>= fun s => Gen.Kernels.groestl_update_256_closure1 K.input p s blk)
+      (Out.ok (h.blockCounter, h.compressor))
+    noMsg (if Gen.Kernels.outOk t1.2 = false then Out.panic "the closure panicked"
+           else .ok (t1.1, (Gen.Kernels.outGet t1.2).1, (Gen.Kernels.outGet t1.2).2))
+      = noMsg (update K p h data >>= fun h' => .ok (groestlEnc h')) := by
+  intro t1
+  obtain ⟨hR, hB⟩ := groestl_inputBlock_rel groestlAccRel K.b h.buffer data (updStep K p)
+    (fun a blk => a >>= fun s => Gen.Kernels.groestl_update_256_closure1 K.input p s blk)
+    (fun a c x hac => groestlAccRel_step K p a c x hac)
+    ⟨h.blockCounter, h.compressor, false⟩ (Out.ok (h.blockCounter, h.compressor)) rfl
+  unfold update updateRaw
+  change groestlAccRel _ t1.2 at hR
+  change _ = t1.1 at hB
+  unfold groestlAccRel at hR
+  generalize inputBlock K.b h.buffer data (updStep K p) ⟨h.blockCounter, h.compressor, false⟩ = r at hR hB
+  obtain ⟨bb, a⟩ := r
+  simp only at hR hB
+  subst hB
+  cases hd : a.dead
+  · rw [hd] at hR
+    simp only [Bool.false_eq_true, if_false] at hR
+    cases ho : t1.2 with
+    | ok s =>
+      rw [ho] at hR
+      simp only [noMsg, Out.ok.injEq] at hR
+      subst hR
+      simp [Gen.Kernels.outOk, Gen.Kernels.outGet, hd, noMsg, groestlEnc]
+    | err => rw [ho] at hR; simp [noMsg] at hR
+    | panic w => rw [ho] at hR; simp [noMsg] at hR
+  · rw [hd] at hR
+    simp only [if_true] at hR
+    cases ho : t1.2 with
+    | ok s => rw [ho] at hR; simp [noMsg] at hR
+    | err => rw [ho] at hR; simp [noMsg] at hR
+    | panic w => simp [Gen.Kernels.outOk, hd, noMsg, bind_panic]
+
+theorem groestl_update_glue_64 {C : Type} [Inhabited C] (K : Comp C) (hb : K.b = 64) (p : Profile) (h : Hasher C)
+    (data : List (BitVec 8)) :
+    noMsg (Gen.Kernels.groestl_update_256 K.input p h.buffer h.blockCounter h.compressor data)
+      = noMsg (update K p h data >>= fun h' => .ok (groestlEnc h')) := by
+  have := groestl_update_glue K p h data
+  rw [hb] at this
+  exact this
+
+theorem groestl_update_glue_128 {C : Type} [Inhabited C] (K : Comp C) (hb : K.b = 128) (p : Profile) (h : Hasher C)
+    (data : List (BitVec 8)) :
+    noMsg (Gen.Kernels.groestl_update_512 K.input p h.buffer h.blockCounter h.compressor data)
+      = noMsg (update K p h data >>= fun h' => .ok (groestlEnc h')) := by
+  have := groestl_update_glue K p h data
+  rw [hb] at this
+  exact this
+
+/-! ### `finalize_dirty` -/
+
+/-- `finalize_dirty` of the model with its two checked additions spelled out -/
+theorem groestl_finalizeDirty_eq {C : Type} (K : Comp C) (p : Profile) (h : Hasher C) :
+    finalizeDirty K p h =
+      (let one := if K.b - h.buffer.pos ≤ 8 then 1#64 else 0#64
+       if p = .debug ∧ h.blockCounter.toNat + 1 ≥ 2 ^ 64 then .panic "attempt to add with overflow" else
+       if p = .debug ∧ (h.blockCounter + 1#64).toNat + one.toNat ≥ 2 ^ 64 then .panic "attempt to add with overflow" else
+       let r := len64PaddingBe K.b h.buffer (h.blockCounter + 1#64 + one) K.input h.compressor
+       let f := K.finalizeDirty r.2
+       .ok ({ h with buffer := r.1, compressor := f.1 }, f.2)) := by
+  unfold finalizeDirty checkedAdd
+  have e1 : (1#64).toNat = 1 := rfl
+  simp only [BitVec.ofNat_eq_ofNat, e1]
+  by_cases h1 : p = .debug ∧ h.blockCounter.toNat + 1 ≥ 2 ^ 64
+  · rw [if_pos h1, if_pos h1]; rfl
+  · rw [if_neg h1, if_neg h1, Out.bind_ok]
+    by_cases h2 : p = .debug ∧ (h.blockCounter + 1#64).toNat + (if K.b - h.buffer.pos ≤ 8 then 1#64 else 0#64).toNat ≥ 2 ^ 64
+    · rw [if_pos h2, if_pos h2]; rfl
+    · rw [if_neg h2, if_neg h2, Out.bind_ok]; rfl
+
+/-- `finalize_dirty` of the model either panics or returns the block of `Compressor::finalize_dirty`;
+    the counter is left as it was -/
+theorem groestl_finalizeDirty_cases {C : Type} (K : Comp C) (p : Profile) (h : Hasher C) :
+    finalizeDirty K p h = .panic "attempt to add with overflow" ∨
+    ∃ (bb : BB) (c : C), finalizeDirty K p h
+      = .ok (⟨bb, h.blockCounter, (K.finalizeDirty c).1⟩, (K.finalizeDirty c).2) := by
+  rw [groestl_finalizeDirty_eq]
+  dsimp only
+  generalize (if K.b - h.buffer.pos ≤ 8 then 1#64 else 0#64) = one
+  by_cases h1 : p = .debug ∧ h.blockCounter.toNat + 1 ≥ 2 ^ 64
+  · rw [if_pos h1]; exact .inl rfl
+  · rw [if_neg h1]
+    by_cases h2 : p = .debug ∧ (h.blockCounter + 1#64).toNat + one.toNat ≥ 2 ^ 64
+    · rw [if_pos h2]; exact .inl rfl
+    · rw [if_neg h2]; exact .inr ⟨_, _, rfl⟩
+
+theorem groestl_finalize_dirty_glue_64 {C : Type} [Inhabited C] (K : Comp C) (hb : K.b = 64) (p : Profile) (h : Hasher C) :
+    noMsg (Gen.Kernels.groestl_finalize_dirty_256 K.input K.finalizeDirty p h.buffer h.blockCounter h.compressor)
+      = noMsg (finalizeDirty K p h >>= fun r => .ok (r.2, groestlEnc r.1)) := by
+  rw [groestl_finalizeDirty_eq]
+  unfold Gen.Kernels.groestl_finalize_dirty_256 Gen.Kernels.groestl_finalize_dirty_256_closure1
+  have e1 : (1#64).toNat = 1 := rfl
+  simp only [e1, hb, decide_eq_false_iff_not, decide_eq_true_eq, Nat.not_lt, ge_iff_le]
+  by_cases h1 : p = .debug ∧ 2 ^ 64 ≤ h.blockCounter.toNat + 1
+  · rw [if_pos h1, if_pos h1]; rfl
+  · rw [if_neg h1, if_neg h1]
+    by_cases h2 : p = .debug ∧ 2 ^ 64 ≤ (h.blockCounter + 1#64).toNat + (if 64 - h.buffer.pos ≤ 8 then 1#64 else 0#64).toNat
+    · rw [if_pos h2, if_pos h2]; rfl
+    · rw [if_neg h2, if_neg h2]; rfl
+
+theorem groestl_finalize_dirty_glue_128 {C : Type} [Inhabited C] (K : Comp C) (hb : K.b = 128) (p : Profile) (h : Hasher C) :
+    noMsg (Gen.Kernels.groestl_finalize_dirty_512 K.input K.finalizeDirty p h.buffer h.blockCounter h.compressor)
+      = noMsg (finalizeDirty K p h >>= fun r => .ok (r.2, groestlEnc r.1)) := by
+  rw [groestl_finalizeDirty_eq]
+  unfold Gen.Kernels.groestl_finalize_dirty_512 Gen.Kernels.groestl_finalize_dirty_512_closure1
+  have e1 : (1#64).toNat = 1 := rfl
+  simp only [e1, hb, decide_eq_false_iff_not, decide_eq_true_eq, Nat.not_lt, ge_iff_le]
+  by_cases h1 : p = .debug ∧ 2 ^ 64 ≤ h.blockCounter.toNat + 1
+  · rw [if_pos h1, if_pos h1]; rfl
+  · rw [if_neg h1, if_neg h1]
+    by_cases h2 : p = .debug ∧ 2 ^ 64 ≤ (h.blockCounter + 1#64).toNat + (if 128 - h.buffer.pos ≤ 8 then 1#64 else 0#64).toNat
+    · rw [if_pos h2, if_pos h2]; rfl
+    · rw [if_neg h2, if_neg h2]; rfl
+
+/-! ### the obligations, one per generated definition
+
+  The private functions of the macro (`new_truncated`, `finalize_dirty`) are tied to `newTruncated` / `finalizeDirty`
+  on `comp512` / `comp1024`; the trait methods of the four public types to `Any.default`, `Any.update`,
+  `Any.finalizeIntoDirty`, `Any.reset` (the generated flat tuple is read back as the struct with `groestlDec`). -/
+
+theorem groestl_comp512_b : comp512.b = 64 := rfl
+theorem groestl_comp1024_b : comp1024.b = 128 := rfl
+
+/-- the block returned by `Compressor512::finalize_dirty` is `transmute!(self.cv)`: eight words -/
+theorem groestl_comp512_finalizeDirty_block (c : X4) : (comp512.finalizeDirty c).2 = X4.toBlock (of512_impl c) := rfl
+theorem groestl_comp1024_finalizeDirty_block (c : X8) : (comp1024.finalizeDirty c).2 = X8.toBlock (of1024_impl c) := rfl
+
+theorem src_groestl_new_truncated_256 (bits : BitVec 32) :
+    groestlEnc (newTruncated comp512 bits.toNat) = Gen.Kernels.groestl_new_truncated_256 comp512.new bits :=
+  groestl_new_truncated_glue_64 comp512 rfl bits
+
+theorem src_groestl_new_truncated_512 (bits : BitVec 32) :
+    groestlEnc (newTruncated comp1024 bits.toNat) = Gen.Kernels.groestl_new_truncated_512 comp1024.new bits :=
+  groestl_new_truncated_glue_128 comp1024 rfl bits
+
+theorem src_groestl_default_256 :
+    Any.default .g256 = .g256 (groestlDec (Gen.Kernels.groestl_default_256 comp512.new)) := by
+  unfold Gen.Kernels.groestl_default_256
+  dsimp only
+  rw [← src_groestl_new_truncated_256]
+  rfl
+
+theorem src_groestl_default_224 :
+    Any.default .g224 = .g224 (groestlDec (Gen.Kernels.groestl_default_224 comp512.new)) := by
+  unfold Gen.Kernels.groestl_default_224
+  dsimp only
+  rw [← src_groestl_new_truncated_256]
+  rfl
+
+theorem src_groestl_default_512 :
+    Any.default .g512 = .g512 (groestlDec (Gen.Kernels.groestl_default_512 comp1024.new)) := by
+  unfold Gen.Kernels.groestl_default_512
+  dsimp only
+  rw [← src_groestl_new_truncated_512]
+  rfl
+
+theorem src_groestl_default_384 :
+    Any.default .g384 = .g384 (groestlDec (Gen.Kernels.groestl_default_384 comp1024.new)) := by
+  unfold Gen.Kernels.groestl_default_384
+  dsimp only
+  rw [← src_groestl_new_truncated_512]
+  rfl
+
+theorem src_groestl_reset_256 (h : Hasher X4) :
+    Any.reset (.g256 h)
+      = .g256 (groestlDec (Gen.Kernels.groestl_reset_256 comp512.new h.buffer h.blockCounter h.compressor)) := by
+  unfold Any.reset
+  rw [src_groestl_default_256]
+  rfl
+
+/-- `self.0 = Groestl256::new_truncated(224)` -/
+theorem src_groestl_reset_224 (h : Hasher X4) :
+    Any.reset (.g224 h)
+      = .g224 (groestlDec (Gen.Kernels.groestl_reset_224 comp512.new h.buffer h.blockCounter h.compressor)) := by
+  unfold Gen.Kernels.groestl_reset_224
+  dsimp only
+  rw [← src_groestl_new_truncated_256]
+  rfl
+
+theorem src_groestl_reset_512 (h : Hasher X8) :
+    Any.reset (.g512 h)
+      = .g512 (groestlDec (Gen.Kernels.groestl_reset_512 comp1024.new h.buffer h.blockCounter h.compressor)) := by
+  unfold Any.reset
+  rw [src_groestl_default_512]
+  rfl
+
+theorem src_groestl_reset_384 (h : Hasher X8) :
+    Any.reset (.g384 h)
+      = .g384 (groestlDec (Gen.Kernels.groestl_reset_384 comp1024.new h.buffer h.blockCounter h.compressor)) := by
+  unfold Any.reset
+  rw [src_groestl_default_384]
+  rfl
+
+/-- `Any.update` on a constructor is `update` of the inner struct -/
+theorem groestl_any_update_eq (p : Profile) (data : List (BitVec 8)) :
+    (∀ h, Any.update p (.g224 h) data = (update comp512 p h data >>= fun h' => .ok (.g224 h'))) ∧
+    (∀ h, Any.update p (.g256 h) data = (update comp512 p h data >>= fun h' => .ok (.g256 h'))) ∧
+    (∀ h, Any.update p (.g384 h) data = (update comp1024 p h data >>= fun h' => .ok (.g384 h'))) ∧
+    (∀ h, Any.update p (.g512 h) data = (update comp1024 p h data >>= fun h' => .ok (.g512 h'))) := by
+  refine ⟨?_, ?_, ?_, ?_⟩ <;> intro h <;> unfold Any.update Any.updateRaw update <;> dsimp only
+  all_goals (cases (updateRaw _ p h data).2 <;> rfl)
+
+/-- transport of a Hasher-level obligation (`groestlEnc` on the model side) to the `Any` level (`groestlDec` on the generated
+    side) -/
+theorem groestl_noMsg_transport {C α : Type} (g : Out (BB × BitVec 64 × C)) (m : Out (Hasher C)) (k : Hasher C → α)
+    (h : noMsg g = noMsg (m >>= fun h' => .ok (groestlEnc h'))) :
+    noMsg (g >>= fun t => .ok (k (groestlDec t))) = noMsg (m >>= fun h' => .ok (k h')) := by
+  cases m with
+  | ok a =>
+    cases g with
+    | ok t => simp only [Out.bind_ok, noMsg, Out.ok.injEq] at h ⊢; rw [h]; rfl
+    | err => simp [noMsg] at h
+    | panic w => simp [noMsg] at h
+  | err =>
+    cases g with
+    | ok t => simp [noMsg, bind_err] at h
+    | err => rfl
+    | panic w => simp [noMsg, bind_err] at h
+  | panic w' =>
+    cases g with
+    | ok t => simp [noMsg, bind_panic] at h
+    | err => simp [noMsg, bind_panic] at h
+    | panic w => rfl
+
+theorem src_groestl_update_256 (p : Profile) (h : Hasher X4) (data : List (BitVec 8)) :
+    noMsg (Gen.Kernels.groestl_update_256 comp512.input p h.buffer h.blockCounter h.compressor data
+        >>= fun t => .ok (Any.g256 (groestlDec t)))
+      = noMsg (Any.update p (.g256 h) data) := by
+  rw [(groestl_any_update_eq p data).2.1]
+  exact groestl_noMsg_transport _ _ Any.g256 (groestl_update_glue_64 comp512 rfl p h data)
+
+theorem src_groestl_update_512 (p : Profile) (h : Hasher X8) (data : List (BitVec 8)) :
+    noMsg (Gen.Kernels.groestl_update_512 comp1024.input p h.buffer h.blockCounter h.compressor data
+        >>= fun t => .ok (Any.g512 (groestlDec t)))
+      = noMsg (Any.update p (.g512 h) data) := by
+  rw [(groestl_any_update_eq p data).2.2.2]
+  exact groestl_noMsg_transport _ _ Any.g512 (groestl_update_glue_128 comp1024 rfl p h data)
+
+/-- a wrapper `digest::Update::update(&mut self.0, data)`: the callee's outcome, only the panic message differs -/
+theorem groestl_noMsg_wrapper {α : Type} [Inhabited α] (x : Out α) (hx : x ≠ .err) :
+    noMsg (if Gen.Kernels.outOk x = false then Out.panic "the callee panicked" else .ok (Gen.Kernels.outGet x))
+      = noMsg x := by
+  cases x with
+  | ok a => rfl
+  | err => exact absurd rfl hx
+  | panic w => rfl
+
+theorem groestl_update_256_ne_err {C : Type} [Inhabited C] (ci : C → List (BitVec 8) → C) (p : Profile) (b : BB)
+    (c : BitVec 64) (k : C) (data : List (BitVec 8)) : Gen.Kernels.groestl_update_256 ci p b c k data ≠ .err := by
+  unfold Gen.Kernels.groestl_update_256
+  dsimp only
+  split <;> simp
+
+theorem groestl_update_512_ne_err {C : Type} [Inhabited C] (ci : C → List (BitVec 8) → C) (p : Profile) (b : BB)
+    (c : BitVec 64) (k : C) (data : List (BitVec 8)) : Gen.Kernels.groestl_update_512 ci p b c k data ≠ .err := by
+  unfold Gen.Kernels.groestl_update_512
+  dsimp only
+  split <;> simp
+
+theorem src_groestl_update_224 (p : Profile) (h : Hasher X4) (data : List (BitVec 8)) :
+    noMsg (Gen.Kernels.groestl_update_224 comp512.input p h.buffer h.blockCounter h.compressor data
+        >>= fun t => .ok (Any.g224 (groestlDec t)))
+      = noMsg (Any.update p (.g224 h) data) := by
+  rw [(groestl_any_update_eq p data).1]
+  refine groestl_noMsg_transport _ _ Any.g224 ?_
+  rw [← groestl_update_glue_64 comp512 rfl p h data]
+  exact groestl_noMsg_wrapper _ (groestl_update_256_ne_err _ _ _ _ _ _)
+
+theorem src_groestl_update_384 (p : Profile) (h : Hasher X8) (data : List (BitVec 8)) :
+    noMsg (Gen.Kernels.groestl_update_384 comp1024.input p h.buffer h.blockCounter h.compressor data
+        >>= fun t => .ok (Any.g384 (groestlDec t)))
+      = noMsg (Any.update p (.g384 h) data) := by
+  rw [(groestl_any_update_eq p data).2.2.1]
+  refine groestl_noMsg_transport _ _ Any.g384 ?_
+  rw [← groestl_update_glue_128 comp1024 rfl p h data]
+  exact groestl_noMsg_wrapper _ (groestl_update_512_ne_err _ _ _ _ _ _)
+
+theorem src_groestl_finalize_dirty_256 (p : Profile) (h : Hasher X4) :
+    noMsg (Gen.Kernels.groestl_finalize_dirty_256 comp512.input comp512.finalizeDirty p h.buffer h.blockCounter
+        h.compressor)
+      = noMsg (finalizeDirty comp512 p h >>= fun r => .ok (r.2, groestlEnc r.1)) :=
+  groestl_finalize_dirty_glue_64 comp512 rfl p h
+
+theorem src_groestl_finalize_dirty_512 (p : Profile) (h : Hasher X8) :
+    noMsg (Gen.Kernels.groestl_finalize_dirty_512 comp1024.input comp1024.finalizeDirty p h.buffer h.blockCounter
+        h.compressor)
+      = noMsg (finalizeDirty comp1024 p h >>= fun r => .ok (r.2, groestlEnc r.1)) :=
+  groestl_finalize_dirty_glue_128 comp1024 rfl p h
+
+/-! ### `finalize_into_dirty` (`out` is overwritten completely: the result does not depend on it) -/
+
+theorem src_groestl_finalize_into_dirty_256 (p : Profile) (h : Hasher X4) (out : List (BitVec 8)) :
+    noMsg (Gen.Kernels.groestl_finalize_into_dirty_256 comp512.input comp512.finalizeDirty p h.buffer h.blockCounter
+        h.compressor out >>= fun t => .ok (Any.g256 (groestlDec (t.1, t.2.1, t.2.2.1)), t.2.2.2))
+      = noMsg (Any.finalizeIntoDirty p (.g256 h)) := by
+  have hg := src_groestl_finalize_dirty_256 p h
+  unfold Gen.Kernels.groestl_finalize_into_dirty_256
+  dsimp only
+  generalize Gen.Kernels.groestl_finalize_dirty_256 comp512.input comp512.finalizeDirty p h.buffer h.blockCounter
+    h.compressor = fd at hg ⊢
+  unfold Any.finalizeIntoDirty
+  dsimp only
+  rcases groestl_finalizeDirty_cases comp512 p h with hp | ⟨bb, c, hok⟩
+  · rw [hp] at hg ⊢
+    cases fd with
+    | ok s => simp [noMsg, bind_panic] at hg
+    | err => simp [noMsg, bind_panic] at hg
+    | panic w => rfl
+  · rw [hok] at hg ⊢
+    cases fd with
+    | ok s =>
+      simp only [noMsg, Out.bind_ok, Out.ok.injEq] at hg
+      subst hg
+      simp [Gen.Kernels.outOk, Gen.Kernels.outGet, noMsg, groestlEnc, groestlDec, leWords, groestl_comp512_finalizeDirty_block, X4.toBlock]
+    | err => simp [noMsg] at hg
+    | panic w => simp [noMsg] at hg
+
+theorem src_groestl_finalize_into_dirty_224 (p : Profile) (h : Hasher X4) (out : List (BitVec 8)) :
+    noMsg (Gen.Kernels.groestl_finalize_into_dirty_224 comp512.input comp512.finalizeDirty p h.buffer h.blockCounter
+        h.compressor out >>= fun t => .ok (Any.g224 (groestlDec (t.1, t.2.1, t.2.2.1)), t.2.2.2))
+      = noMsg (Any.finalizeIntoDirty p (.g224 h)) := by
+  have hg := src_groestl_finalize_dirty_256 p h
+  unfold Gen.Kernels.groestl_finalize_into_dirty_224
+  dsimp only
+  generalize Gen.Kernels.groestl_finalize_dirty_256 comp512.input comp512.finalizeDirty p h.buffer h.blockCounter
+    h.compressor = fd at hg ⊢
+  unfold Any.finalizeIntoDirty
+  dsimp only
+  rcases groestl_finalizeDirty_cases comp512 p h with hp | ⟨bb, c, hok⟩
+  · rw [hp] at hg ⊢
+    cases fd with
+    | ok s => simp [noMsg, bind_panic] at hg
+    | err => simp [noMsg, bind_panic] at hg
+    | panic w => rfl
+  · rw [hok] at hg ⊢
+    cases fd with
+    | ok s =>
+      simp only [noMsg, Out.bind_ok, Out.ok.injEq] at hg
+      subst hg
+      simp [Gen.Kernels.outOk, Gen.Kernels.outGet, noMsg, groestlEnc, groestlDec, leWords, groestl_comp512_finalizeDirty_block, X4.toBlock]
+    | err => simp [noMsg] at hg
+    | panic w => simp [noMsg] at hg
+
+theorem src_groestl_finalize_into_dirty_512 (p : Profile) (h : Hasher X8) (out : List (BitVec 8)) :
+    noMsg (Gen.Kernels.groestl_finalize_into_dirty_512 comp1024.input comp1024.finalizeDirty p h.buffer h.blockCounter
+        h.compressor out >>= fun t => .ok (Any.g512 (groestlDec (t.1, t.2.1, t.2.2.1)), t.2.2.2))
+      = noMsg (Any.finalizeIntoDirty p (.g512 h)) := by
+  have hg := src_groestl_finalize_dirty_512 p h
+  unfold Gen.Kernels.groestl_finalize_into_dirty_512
+  dsimp only
+  generalize Gen.Kernels.groestl_finalize_dirty_512 comp1024.input comp1024.finalizeDirty p h.buffer h.blockCounter
+    h.compressor = fd at hg ⊢
+  unfold Any.finalizeIntoDirty
+  dsimp only
+  rcases groestl_finalizeDirty_cases comp1024 p h with hp | ⟨bb, c, hok⟩
+  · rw [hp] at hg ⊢
+    cases fd with
+    | ok s => simp [noMsg, bind_panic] at hg
+    | err => simp [noMsg, bind_panic] at hg
+    | panic w => rfl
+  · rw [hok] at hg ⊢
+    cases fd with
+    | ok s =>
+      simp only [noMsg, Out.bind_ok, Out.ok.injEq] at hg
+      subst hg
+      simp [Gen.Kernels.outOk, Gen.Kernels.outGet, noMsg, groestlEnc, groestlDec, leWords, groestl_comp1024_finalizeDirty_block, X8.toBlock]
+    | err => simp [noMsg] at hg
+    | panic w => simp [noMsg] at hg
+
+theorem src_groestl_finalize_into_dirty_384 (p : Profile) (h : Hasher X8) (out : List (BitVec 8)) :
+    noMsg (Gen.Kernels.groestl_finalize_into_dirty_384 comp1024.input comp1024.finalizeDirty p h.buffer h.blockCounter
+        h.compressor out >>= fun t => .ok (Any.g384 (groestlDec (t.1, t.2.1, t.2.2.1)), t.2.2.2))
+      = noMsg (Any.finalizeIntoDirty p (.g384 h)) := by
+  have hg := src_groestl_finalize_dirty_512 p h
+  unfold Gen.Kernels.groestl_finalize_into_dirty_384
+  dsimp only
+  generalize Gen.Kernels.groestl_finalize_dirty_512 comp1024.input comp1024.finalizeDirty p h.buffer h.blockCounter
+    h.compressor = fd at hg ⊢
+  unfold Any.finalizeIntoDirty
+  dsimp only
+  rcases groestl_finalizeDirty_cases comp1024 p h with hp | ⟨bb, c, hok⟩
+  · rw [hp] at hg ⊢
+    cases fd with
+    | ok s => simp [noMsg, bind_panic] at hg
+    | err => simp [noMsg, bind_panic] at hg
+    | panic w => rfl
+  · rw [hok] at hg ⊢
+    cases fd with
+    | ok s =>
+      simp only [noMsg, Out.bind_ok, Out.ok.injEq] at hg
+      subst hg
+      simp [Gen.Kernels.outOk, Gen.Kernels.outGet, noMsg, groestlEnc, groestlDec, leWords, groestl_comp1024_finalizeDirty_block, X8.toBlock]
+    | err => simp [noMsg] at hg
+    | panic w => simp [noMsg] at hg
+
+/-- the structs of lib.rs / compressor.rs: `$groestl { buffer, block_counter, compressor }` (model `Hasher`), the wrappers
+    `Groestl224(Groestl256)`, `Groestl384(Groestl512)` (model `Any`), `Compressor512 { cv }` / `Compressor1024 { cv }`,
+    `X4`, `X8`; `Clone` is derived everywhere (field-wise copy: a hand-written `Clone` makes the translator fail) -/
+theorem src_groestl_structs :
+    Gen.Kernels.groestl_structs =
+      [("Groestl224", "struct", ["0"], ["Clone", "Debug"], ["Default"]),
+       ("Groestl256", "struct", ["buffer", "block_counter", "compressor"], ["Clone"], ["Default"]),
+       ("Groestl384", "struct", ["0"], ["Clone", "Debug"], ["Default"]),
+       ("Groestl512", "struct", ["buffer", "block_counter", "compressor"], ["Clone"], ["Default"]),
+       ("Compressor512", "struct", ["cv"], ["Clone"], []),
+       ("Compressor1024", "struct", ["cv"], ["Clone"], []),
+       ("X4", "struct", ["0", "1", "2", "3"], ["Clone", "Copy"], []),
+       ("X8", "struct", ["0", "1", "2", "3", "4", "5", "6", "7"], ["Clone", "Copy"], [])] := rfl
 
 end CC.Src
